@@ -416,6 +416,27 @@ def _session_format(ctx: Ctx, helpers):
                              f"1970, raises OverflowError in the constructor - no session id, and no Node",
                              rule="C16-R3b", expected="(int(time.time()) & 0xffffffff).to_bytes(4, ...)",
                              observed=ast.unparse(v)[:60])
+    # the same start time is the node's Origin-State-Id (Unsigned32 in every CER, DWR and DWA)
+    node_cls = model.cls("node.node", "Node")
+    ninit = node_cls.methods.get("__init__")
+    cons_s = "Node.__init__:state_id-fits-32-bits"
+    ctx.inst(cons_s, rule="C16-R3b")
+    if ninit is not None:
+        ctx.use(ninit)
+        for n in A.walk_no_nested(ninit.node):
+            if isinstance(n, (ast.Assign, ast.AnnAssign)) and getattr(n, "value", None) is not None and any(
+                    A.dotted(t) == "self.state_id" for t in A.store_targets(n)) and any(
+                    isinstance(x, ast.Call) and A.call_name(x) in ("time.time", "time.time_ns") for x in ast.walk(n.value)):
+                v = n.value
+                masked = isinstance(v, ast.BinOp) and (
+                    (isinstance(v.op, ast.BitAnd) and any(
+                        isinstance(model.try_fold(x, ninit.module, node_cls), int)
+                        and 0 <= model.try_fold(x, ninit.module, node_cls) <= 0xffffffff for x in (v.left, v.right)))
+                    or (isinstance(v.op, ast.Mod) and model.try_fold(v.right, ninit.module, node_cls) == 2 ** 32))
+                if not masked:
+                    ctx.fail(cons_s, ninit.loc(n), f"`{ast.unparse(n)[:70]}`: the start time is kept unmasked as "
+                             f"Origin-State-Id (Unsigned32): with a clock at or beyond 2^32 s no CER, DWR or DWA "
+                             f"can be encoded - the node never completes a capabilities exchange", rule="C16-R3b")
     g = helpers.classes["SessionGenerator"]
     f = g.methods.get("next_id")
     init = g.methods.get("__init__")
